@@ -123,7 +123,7 @@ func (c Case) newRowFromStruct(si selInfo, r int, id interface{}, utTracked bool
 	for i := 0; i < 4; i++ {
 		l := lF0 + i
 		p := m.perm(i)
-		nz := c.Vals[i] == vNonZero || c.Vals[i] == vExpr
+		nz := c.structNonZero(i, r)
 		switch {
 		case p.Ign:
 			out[l] = keep(true, "ignored field", nz)
@@ -133,8 +133,12 @@ func (c Case) newRowFromStruct(si selInfo, r int, id interface{}, utTracked bool
 			out[l] = keep(false, "omitted", nz)
 		case si.restricted && !si.explicit[l]:
 			out[l] = keep(false, "not selected", nz)
+		case nz:
+			out[l] = be(dbVal(i, vNonZero, r, true, nil), "create writes every permitted field")
+		case m.DBDefault:
+			out[l] = be(nil, "a zero value leaves a column with a database-side default to the database")
 		default:
-			out[l] = c.beVal(i, r, true, "create writes every permitted field")
+			out[l] = be(dbVal(i, vZero, r, true, nil), "create writes every permitted field")
 		}
 	}
 	for k, l := range []int{lCT, lUT} {
@@ -403,6 +407,8 @@ func (c Case) conflictRowStruct(si selInfo) []cellExp {
 			p := m.perm(i)
 			listed := i < 2
 			switch {
+			case listed && m.DBDefault && !p.Ign && p.C && p.U:
+				row[l] = free("DoUpdates column with a database-side default")
 			case listed && !p.Ign && p.C && p.U && !si.omitted[l] && !(si.restricted && !si.explicit[l]):
 				row[l] = c.beVal(i, 0, true, "listed in DoUpdates")
 			case listed:
@@ -429,6 +435,8 @@ func (c Case) conflictRowStruct(si selInfo) []cellExp {
 				row[l] = keep(false, "omitted", nz)
 			case si.restricted && !si.explicit[l]:
 				row[l] = keep(false, "not selected", nz)
+			case m.DBDefault:
+				row[l] = keep(false, "UpdateAll does not rewrite columns that have a database-side default", nz)
 			default:
 				row[l] = c.beVal(i, 0, true, "upsert UpdateAll writes every permitted column")
 			}
